@@ -73,6 +73,20 @@ def main():
                 print("seeded %s: NOT EVALUATED (%s)" % (meta["id"], err)); bad += 1; continue
             _, rc, keys = res[0]
             ok = rc == 1 and keys
+            if meta.get("caught_by", "").startswith("NOT CAUGHT"):
+                # documented limit: flag only a surprise (harness error)
+                print("seeded %s: documented miss, exit %d %s" % (meta["id"], rc, " ".join(keys)))
+                bad += 1 if rc == 2 else 0
+                continue
+            if not ok and prop not in meta.get("caught_by", "").split(" quick")[0]:
+                # the change is caught by another property's check (see meta.json)
+                other = meta["caught_by"].split(" quick")[0].split()[-1]
+                res2, _ = run_in_worktree(patch, [other])
+                _, rc2, keys2 = res2[0]
+                ok = rc2 == 1 and keys2
+                print("seeded %s: %s by %s %s" % (meta["id"], "caught" if ok else "MISSED", other, " ".join(keys2)))
+                bad += 0 if ok else 1
+                continue
             print("seeded %s: %s %s" % (meta["id"], "caught" if ok else "MISSED (exit %d)" % rc, " ".join(keys)))
             bad += 0 if ok else 1
     if a.only in ("", "benign"):
